@@ -623,6 +623,7 @@ impl Check for C07 {
         let max_n = if tier == Tier::Quick { 6 } else { 7 };
         let trials = if tier == Tier::Quick { 200_000 } else { 1_000_000 };
         let mut m = serde_json::Map::new();
+        m.insert("enumerated_small_populations".into(), serde_json::json!(enum_cells()));
         m.insert(
             "stat_budget".into(),
             serde_json::json!({
